@@ -263,7 +263,9 @@ theorem getDtypeK_some (k : Kind) (l : Int) (d : DT) (h : getDtypeK k (some l) =
   · cases h
   · split at h
     · cases h
-    · cases h; rfl
+    · split at h
+      · cases h
+      · cases h; rfl
 
 theorem bitstoreFromToken_len (rec : Str → Except Err Bits) (name : Str) (l : Int) (v : Option Val) (b : Bits) (k : Kind)
     (hlit : literalNames.contains name = false) (hk : kindOfName (String.ofList name) = .ok k)
@@ -327,19 +329,19 @@ theorem tokBits_declared_length' (kw : Kw) (t : Tok) (v : Option Val) (b : Bits)
 
 theorem tokBits_plain_fixed (kw : Kw) (name : Str) (n : Int) (v : Val) (k : Kind)
     (hb : (name = "bits".toList) = False) (hlit : literalNames.contains name = false)
-    (hk : kindOfName (String.ofList name) = .ok k) (hal : k.allows n = true) (hvar : k.variable = false) :
+    (hk : kindOfName (String.ofList name) = .ok k) (hal : k.allows n = true) (hvar : k.variable = false) (hn0 : ¬ n < 0) :
     tokBits kw ⟨name, some (.int n), none⟩ (some v) =
       match buildDT strToBits ⟨k, some n⟩ (some v) with
       | .error e => .error e
       | .ok b => if (b.length : Int) ≠ n * k.mult then .error .value else .ok b := by
   unfold tokBits
   simp only [Option.isNone_some, Bool.false_eq_true, and_false, false_and, if_false, resolveLen, resolveVal, hb,
-    bitstoreFromToken, hlit, mkDtype, getDtype, hk, getDtypeK, hal, hvar, Bool.not_true, Option.isNone_some]
+    bitstoreFromToken, hlit, mkDtype, getDtype, hk, getDtypeK, hal, hvar, hn0, Bool.not_true, Option.isNone_some]
   cases buildDT strToBits ⟨k, some n⟩ (some v) <;> simp [DT.bitlen]
 
 theorem uint_out_of_range' (kw : Kw) (n : Nat) (i : Int) (h : i < 0 ∨ (2 : Int) ^ n ≤ i) :
     tokBits kw ⟨"uint".toList, some (.int n), none⟩ (some (.int i)) = .error .value := by
-  rw [tokBits_plain_fixed kw _ _ _ .uint (by decide) (by decide) (by decide) (by simp [Kind.allows]) (by rfl)]
+  rw [tokBits_plain_fixed kw _ _ _ .uint (by decide) (by decide) (by decide) (by simp [Kind.allows]) (by rfl) (by omega)]
   have hm : Kind.uint.mult = 1 := rfl
   have h2 : (i < 0 ∨ i ≥ 2 ^ n) := by omega
   by_cases hn : n = 0
@@ -348,7 +350,7 @@ theorem uint_out_of_range' (kw : Kw) (n : Nat) (i : Int) (h : i < 0 ∨ (2 : Int
 
 theorem int_out_of_range' (kw : Kw) (n : Nat) (i : Int) (h : i < -((2 : Int) ^ (n - 1)) ∨ (2 : Int) ^ (n - 1) ≤ i) :
     tokBits kw ⟨"int".toList, some (.int n), none⟩ (some (.int i)) = .error .value := by
-  rw [tokBits_plain_fixed kw _ _ _ .int (by decide) (by decide) (by decide) (by simp [Kind.allows]) (by rfl)]
+  rw [tokBits_plain_fixed kw _ _ _ .int (by decide) (by decide) (by decide) (by simp [Kind.allows]) (by rfl) (by omega)]
   have hm : Kind.int.mult = 1 := rfl
   have h2 : (i ≥ 2 ^ (n - 1) ∨ i < -(2 ^ (n - 1) : Int)) := by omega
   by_cases hn : n = 0
@@ -363,7 +365,7 @@ theorem bits_wrong_size' (kw : Kw) (n : Nat) (x : Bits) (h : x.length ≠ n) :
 
 theorem bytes_wrong_size' (kw : Kw) (n : Nat) (x : Bits) (h : x.length ≠ 8 * n) :
     tokBits kw ⟨"bytes".toList, some (.int n), none⟩ (some (.bytes x)) = .error .value := by
-  rw [tokBits_plain_fixed kw _ _ _ .bytes (by decide) (by decide) (by decide) (by simp [Kind.allows]) (by rfl)]
+  rw [tokBits_plain_fixed kw _ _ _ .bytes (by decide) (by decide) (by decide) (by simp [Kind.allows]) (by rfl) (by omega)]
   have hm : Kind.bytes.mult = 8 := rfl
   have : ¬ ((x.length : Int) = n * 8) := by omega
   simp [buildDT, setFn, DT.bitlen, buildBytes, hm, this]
